@@ -4,7 +4,7 @@ use crate::region::Configuration;
 use crate::{AppEui, AppKey, DevEui};
 use lorawan::creator::JoinRequest;
 use lorawan::default_crypto::DefaultCrypto;
-use lorawan::parser::DecryptedJoinAcceptPayload;
+use lorawan::parser::{CfList, DecryptedJoinAcceptPayload};
 use rand_core::RngCore;
 
 pub(crate) type DevNonce = lorawan::parser::DevNonce;
@@ -56,7 +56,15 @@ impl Otaa {
             rx.as_mut_for_read(),
             &DefaultCrypto::new(self.network_credentials.appkey.inner()),
         ) {
-            region.process_join_accept(decrypt.c_f_list().as_ref());
+            // A channel mask that leaves no channel usable at the current data rate would make
+            // every later uplink impossible: ignore it like the other invalid settings.
+            let c_f_list = decrypt.c_f_list().filter(|list| match list {
+                CfList::FixedChannel(mask) => {
+                    region.channel_mask_validate(mask, Some(configuration.data_rate))
+                }
+                CfList::DynamicChannel(_) => true,
+            });
+            region.process_join_accept(c_f_list.as_ref());
             configuration.rx1_delay = del_to_delay_ms(decrypt.rx_delay());
             let dl_settings = decrypt.dl_settings();
             if let Some(rx1_dr_offset) = region.rx1_dr_offset_validate(dl_settings.rx1_dr_offset())
